@@ -15,6 +15,7 @@ from mc.runner import Result
 
 PROPERTY = "C05"
 LEVEL = "model_checking"
+TECHNIQUE = "bounded exhaustive enumeration of labels x expected_groups x fill x min_count x plans against a slot-by-slot reference model"
 ENGINE = "E1"
 RULE = (
     "state = (reduction, engine, label tuple over {0,1,2,NaN}^n, expected_groups kind, sort, fill_value, min_count, "
